@@ -6,6 +6,7 @@ package main
 import (
 	"fmt"
 	"go/token"
+	"go/types"
 	"sort"
 	"strings"
 
@@ -169,10 +170,10 @@ func (fa *FuncAnalysis) lits(cond ssa.Value, truth bool, depth int) []Lit {
 		case token.EQL, token.NEQ:
 			eq := (x.Op == token.EQL) == truth
 			if b.IsConst("nil") {
-				return []Lit{{&Term{Op: "isnil", Args: []*Term{a}, V: x}, eq}}
+				return append([]Lit{{&Term{Op: "isnil", Args: []*Term{a}, V: x}, eq}}, fa.nonNilPhi(x.X, x, eq)...)
 			}
 			if a.IsConst("nil") {
-				return []Lit{{&Term{Op: "isnil", Args: []*Term{b}, V: x}, eq}}
+				return append([]Lit{{&Term{Op: "isnil", Args: []*Term{b}, V: x}, eq}}, fa.nonNilPhi(x.Y, x, eq)...)
 			}
 			if out := fa.phiConstCmp(x, eq, depth); out != nil {
 				return append([]Lit{{&Term{Op: "eq", Args: []*Term{a, b}, V: x}, eq}}, out...)
@@ -398,6 +399,41 @@ func (fa *FuncAnalysis) Reach(target func(ssa.Instruction) bool, o ReachOpts) ([
 					if v, ok := known["φ"+ph.Name()]; ok && ((si == 0) != (v != neg)) {
 						continue
 					}
+					// a boolean temporary (`x := a && b; …; if x`): on this path the phi IS the value that came in through
+					// the edge taken, so the test carries that value's literals
+					cut := false
+					for pi, e := range ph.Edges {
+						if known[fmt.Sprintf("π%s#%d", ph.Name(), pi)] {
+							for _, l := range fa.lits(e, (si == 0) != neg, 1) {
+								for _, c := range o.Cut {
+									cut = cut || c(l)
+								}
+								for _, c := range fa.p.AlwaysCut {
+									cut = cut || c(l)
+								}
+							}
+						}
+					}
+					if cut {
+						continue
+					}
+				}
+				// … or a nil test of a pointer/interface slot whose nil-ness on this path is known
+				if bo, ok := cond.(*ssa.BinOp); ok && !o.NoPrune && (bo.Op == token.EQL || bo.Op == token.NEQ) {
+					var ph *ssa.Phi
+					if x, isP := bo.X.(*ssa.Phi); isP && isNilConst(bo.Y) {
+						ph = x
+					} else if y, isP := bo.Y.(*ssa.Phi); isP && isNilConst(bo.X) {
+						ph = y
+					}
+					if ph != nil {
+						if isNil, ok := known["ν"+ph.Name()]; ok {
+							condTrue := isNil == (bo.Op == token.EQL)
+							if (si == 0) != (condTrue != neg) {
+								continue
+							}
+						}
+					}
 				}
 			}
 			nk := known
@@ -415,52 +451,8 @@ func (fa *FuncAnalysis) Reach(target func(ssa.Instruction) bool, o ReachOpts) ([
 					nk[ck.key] = val
 				}
 			}
-			// boolean phis of the successor whose incoming value on this edge is a constant (a flag assigned on the way,
-			// e.g. the result slot of an inlined helper): remember it for the test that follows
 			if !o.NoPrune {
-				occ := 0
-				for j := 0; j < si; j++ {
-					if b.Succs[j] == s {
-						occ++
-					}
-				}
-				pi := -1
-				for j, pr := range s.Preds {
-					if pr == b {
-						if occ == 0 {
-							pi = j
-							break
-						}
-						occ--
-					}
-				}
-				if pi >= 0 {
-					for _, in := range s.Instrs {
-						ph, ok := in.(*ssa.Phi)
-						if !ok {
-							break
-						}
-						if !isBoolType(ph.Type()) || pi >= len(ph.Edges) {
-							continue
-						}
-						key := "φ" + ph.Name()
-						cv, isConst := constBool(ph.Edges[pi])
-						_, had := nk[key]
-						if !isConst && !had {
-							continue
-						}
-						cp := make(map[string]bool, len(nk)+1)
-						for k, v := range nk {
-							cp[k] = v
-						}
-						if isConst {
-							cp[key] = cv
-						} else {
-							delete(cp, key)
-						}
-						nk = cp
-					}
-				}
+				nk = fa.enterPhis(nk, b, si)
 			}
 			path = append(path, pathStep{b, si})
 			if dfs(s, 0, nk) {
@@ -523,6 +515,12 @@ func (fa *FuncAnalysis) ReachFromEdge(b *ssa.BasicBlock, si int, pred func(ssa.I
 			o.StartKnown = map[string]bool{}
 		}
 		o.StartKnown[ck.key] = (si == 0) != ck.neg
+	}
+	if !o.NoPrune {
+		if o.StartKnown == nil {
+			o.StartKnown = map[string]bool{}
+		}
+		o.StartKnown = fa.enterPhis(o.StartKnown, b, si)
 	}
 	return fa.Reach(pred, o)
 }
@@ -811,4 +809,128 @@ func stableGlobal(g *ssa.Global) bool {
 	}
 	stableGlobals[g] = ok
 	return ok
+}
+
+func isNilConst(v ssa.Value) bool {
+	c, ok := v.(*ssa.Const)
+	return ok && c.Value == nil && isNillable(c.Type())
+}
+
+func isNillable(t types.Type) bool {
+	switch t.Underlying().(type) {
+	case *types.Pointer, *types.Interface, *types.Map, *types.Slice, *types.Chan, *types.Signature:
+		return true
+	}
+	return false
+}
+
+// definitelyNonNil: values that are never nil by construction — a fresh allocation, a value boxed into an interface,
+// the results of fmt.Errorf / errors.New.
+func definitelyNonNil(v ssa.Value) bool {
+	switch x := v.(type) {
+	case *ssa.Alloc, *ssa.MakeInterface, *ssa.MakeMap, *ssa.MakeChan, *ssa.MakeClosure, *ssa.Function:
+		return true
+	case *ssa.Call:
+		if f := x.Call.StaticCallee(); f != nil && f.Pkg != nil {
+			switch f.Pkg.Pkg.Path() + "." + f.Name() {
+			case "fmt.Errorf", "errors.New":
+				return true
+			}
+		}
+	}
+	return false
+}
+
+// nonNilPhi: `p != nil` where p = phi(nil, …, nil, v): a pointer temporary that is nil unless it was assigned v
+// (`var lag *float64; if s != nil { lag = s.Lag }`) — being non-nil it is v, so v is non-nil.
+func (fa *FuncAnalysis) nonNilPhi(v ssa.Value, at ssa.Value, isNil bool) []Lit {
+	ph, ok := v.(*ssa.Phi)
+	if !ok || isNil {
+		return nil
+	}
+	var other ssa.Value
+	n := 0
+	for _, e := range ph.Edges {
+		if isNilConst(e) {
+			continue
+		}
+		other = e
+		n++
+	}
+	if n != 1 {
+		return nil
+	}
+	return []Lit{{&Term{Op: "isnil", Args: []*Term{fa.p.T(other)}, V: at}, false}}
+}
+
+// enterPhis: the valuation after taking successor edge si of b — phis of the successor whose incoming value on this edge
+// is a constant (a flag assigned on the way, e.g. the result slot of an inlined helper) are remembered for the test that
+// follows; for a boolean phi with a non-constant incoming value the edge taken is remembered.
+func (fa *FuncAnalysis) enterPhis(nk map[string]bool, b *ssa.BasicBlock, si int) map[string]bool {
+	s := b.Succs[si]
+	occ := 0
+	for j := 0; j < si; j++ {
+		if b.Succs[j] == s {
+			occ++
+		}
+	}
+	pi := -1
+	for j, pr := range s.Preds {
+		if pr == b {
+			if occ == 0 {
+				pi = j
+				break
+			}
+			occ--
+		}
+	}
+	if pi < 0 {
+		return nk
+	}
+	for _, in := range s.Instrs {
+		ph, ok := in.(*ssa.Phi)
+		if !ok {
+			break
+		}
+		if pi >= len(ph.Edges) {
+			continue
+		}
+		key := "φ" + ph.Name()
+		cv, isConst := false, false
+		if isBoolType(ph.Type()) {
+			cv, isConst = constBool(ph.Edges[pi])
+		} else if isNillable(ph.Type()) {
+			key = "ν" + ph.Name()
+			if isNilConst(ph.Edges[pi]) {
+				cv, isConst = true, true
+			} else if definitelyNonNil(ph.Edges[pi]) {
+				cv, isConst = false, true
+			}
+		} else {
+			continue
+		}
+		_, had := nk[key]
+		if !isConst && !had && !isBoolType(ph.Type()) {
+			continue
+		}
+		cp := make(map[string]bool, len(nk)+1)
+		for k, v := range nk {
+			cp[k] = v
+		}
+		if isConst {
+			cp[key] = cv
+		} else {
+			delete(cp, key)
+		}
+		if isBoolType(ph.Type()) {
+			for j := range ph.Edges {
+				delete(cp, fmt.Sprintf("π%s#%d", ph.Name(), j))
+			}
+			if !isConst {
+				cp[fmt.Sprintf("π%s#%d", ph.Name(), pi)] = true
+			}
+		}
+		nk = cp
+	}
+	return nk
 }
